@@ -1,4 +1,5 @@
 pub mod builder;
+pub mod convert;
 pub mod decode;
 pub mod operand;
 pub mod reflect;
